@@ -30,6 +30,7 @@ Atoms == <<
 >>
 NA == Len(Atoms)
 RawGap == [Raw("abc", BitsABC) EXCEPT !.gap = TRUE]
+NR(val) == [val EXCEPT !.nroot = TRUE]          \* the value as the root of a nested buffer
 
 (************************ GEN: values of depth <= 2 ***********************)
 Depth1 ==
@@ -40,7 +41,11 @@ Depth1 ==
        St(<<"b", "zz", "a">>, <<SAbc, U5, U5five>>),
        St(<<"b", "gap0", "a">>, <<U5, RawGap, U5five>>),              \* gap fields (these are decoded as the root)
        St(<<"a", "gap0">>, <<SAbc, RawGap>>),
-       St(<<"gap0", "b", "gap1">>, <<RawGap, U5, RawGap>>) >>
+       St(<<"gap0", "b", "gap1">>, <<RawGap, U5, RawGap>>),
+       St(<<"u", "n">>, <<U5, NR(St(<<"b", "a">>, <<U5five, SAbc>>))>>),          \* nested buffers
+       St(<<"n", "u">>, <<NR(Ar(<<U5, SAbc>>)), U5>>),
+       Ar(<<NR(Raw("abc", BitsABC)), U5>>),
+       NR(St(<<"b", "a">>, <<U5five, SAbc>>)), NR(Ar(<<U5, SAbc>>)), NR(Raw("abc", BitsABC)) >>
 \* one atom per kind with a sym where possible
 Pick2 == <<2, 8, 11, 15, 18, 24, 27, 30, 31, 32>>
 Depth2 ==
